@@ -220,9 +220,9 @@ func main() {
 	}
 
 	only := os.Getenv("C11_WORKLOAD") // debugging: restrict to one workload
-	nResp := r.N(2500, 300000)
-	nHTTP := r.N(5000, 1000000)
-	nWS := r.N(3000, 500000)
+	nResp := r.N(12000, 300000)
+	nHTTP := r.N(25000, 1000000)
+	nWS := r.N(12000, 500000)
 	if *fault {
 		// every allocation is a mapping and every case is recorded first: an eighth of the cases
 		nResp, nHTTP, nWS = nResp/8, nHTTP/8, nWS/8
